@@ -382,6 +382,174 @@ pub(crate) enum Source {
     Connection,
 }
 
+/// Verification hooks, compiled only with `--cfg iroh_verif`.
+///
+/// A real [`RemoteMap`] without a socket: the harness plays the socket actor (which owns the
+/// map and calls `resolve_remote` / `cleanup` one after the other) and, through [`Racer`],
+/// the other threads that send through the shared sender map.  Nothing here exists in a
+/// normal build.
+#[cfg(iroh_verif)]
+pub mod verif_hooks {
+    use std::{collections::BTreeSet, future::poll_fn, sync::Arc};
+
+    use iroh_base::{EndpointAddr, EndpointId};
+    use n0_watcher::Watchable;
+    use tokio::sync::{mpsc, oneshot};
+    use tokio_util::sync::CancellationToken;
+    use tracing::Span;
+
+    use super::{DirectAddr, RemoteInfo, RemoteMap, RemoteStateMessage, SocketMetrics};
+    use crate::{
+        address_lookup::{AddressLookupFailed, AddressLookupServices},
+        socket::{
+            biased_rtt_path_selector::BiasedRttPathSelector, concurrent_read_map::ReadOnlyMap,
+        },
+    };
+
+    /// Poll a future once.
+    fn now_or_never<T, F: Future<Output = T>>(fut: F) -> Option<T> {
+        let fut = std::pin::pin!(fut);
+        match fut.poll(&mut std::task::Context::from_waker(std::task::Waker::noop())) {
+            std::task::Poll::Ready(res) => Some(res),
+            std::task::Poll::Pending => None,
+        }
+    }
+
+    /// A real `RemoteMap` with default metrics, no local addresses, the default path selector
+    /// and the given lookup services.  Actors are spawned on the current tokio runtime.
+    #[derive(Debug)]
+    pub struct MapDriver {
+        map: RemoteMap,
+        shutdown: CancellationToken,
+        _local_addrs: Watchable<BTreeSet<DirectAddr>>,
+    }
+
+    impl MapDriver {
+        /// `RemoteMap::new`, as the socket does it.
+        pub fn new(address_lookup: AddressLookupServices) -> Self {
+            let local_addrs: Watchable<BTreeSet<DirectAddr>> = Watchable::new(BTreeSet::new());
+            let shutdown = CancellationToken::new();
+            let map = RemoteMap::new(
+                Arc::new(SocketMetrics::default()),
+                local_addrs.watch(),
+                address_lookup,
+                shutdown.clone(),
+                Arc::new(BiasedRttPathSelector::default()),
+                Span::none(),
+            );
+            Self {
+                map,
+                shutdown,
+                _local_addrs: local_addrs,
+            }
+        }
+
+        /// `RemoteMap::resolve_remote`; returns the receiving end of the request.
+        pub async fn resolve_remote(
+            &mut self,
+            addr: EndpointAddr,
+        ) -> oneshot::Receiver<Result<(), AddressLookupFailed>> {
+            let (tx, rx) = oneshot::channel();
+            self.map.resolve_remote(addr, tx).await;
+            rx
+        }
+
+        /// `RemoteMap::send_to_actor(remote, RemoteInfo(tx))`: the path `add_connection` and
+        /// `resolve_remote` take, with a message that needs no connection.
+        pub async fn request_info(&mut self, remote: EndpointId) -> oneshot::Receiver<RemoteInfo> {
+            let (tx, rx) = oneshot::channel();
+            self.map
+                .send_to_actor(remote, RemoteStateMessage::RemoteInfo(tx))
+                .await;
+            rx
+        }
+
+        /// `RemoteMap::cleanup`, polled once (the `cleanup` arm of the socket actor's loop
+        /// when nothing else is ready): the endpoint id whose sender was removed, if any.
+        pub fn cleanup_now(&mut self) -> Option<EndpointId> {
+            now_or_never(self.map.cleanup())
+        }
+
+        /// One iteration of the loop in `RemoteMap::cleanup`: reaps at most one joined actor
+        /// task; `Some((id, removed))` tells whether its sender was removed (`true`) or the
+        /// actor restarted with its leftover messages (`false`).
+        pub fn cleanup_one(&mut self) -> Option<(EndpointId, bool)> {
+            let (id, leftover) = now_or_never(poll_fn(|cx| self.map.poll_join_next(cx)))?;
+            let removed = self.map.remove_or_restart_actor(id, leftover);
+            Some((id, removed))
+        }
+
+        /// Whether the sender map has an entry for `remote`.
+        pub fn has_sender(&self, remote: EndpointId) -> bool {
+            self.map.senders().get(&remote).is_some()
+        }
+
+        /// Whether the inbox behind the sender of `remote` is closed (`None`: no sender).
+        pub fn sender_closed(&self, remote: EndpointId) -> Option<bool> {
+            self.map.senders().get(&remote).map(|s| s.is_closed())
+        }
+
+        /// Number of messages queued in the inbox of `remote`'s actor (`None`: no sender).
+        pub fn inbox_len(&self, remote: EndpointId) -> Option<usize> {
+            self.map
+                .senders()
+                .get(&remote)
+                .map(|s| s.max_capacity() - s.capacity())
+        }
+
+        /// Number of actor tasks in the `JoinSet` (running or finished, not yet reaped).
+        pub fn tasks_len(&self) -> usize {
+            self.map.tasks.tasks.len()
+        }
+
+        /// A handle sending through the shared read-only sender map, as the other threads of
+        /// the socket do.
+        pub fn racer(&self) -> Racer {
+            Racer {
+                senders: self.map.senders(),
+            }
+        }
+
+        /// Cancels the shutdown token of the map (all actors stop).
+        pub fn shutdown(&self) {
+            self.shutdown.cancel();
+        }
+    }
+
+    /// Sends through the shared sender map without going through the map's owner
+    /// (`Socket::try_send_remote_state_msg` / `Socket::remote_info`).
+    #[derive(Debug, Clone)]
+    pub struct Racer {
+        senders: ReadOnlyMap<EndpointId, mpsc::Sender<RemoteStateMessage>>,
+    }
+
+    impl Racer {
+        /// `try_send(RemoteInfo(tx))` on the sender of `remote`: `None` if there is no sender
+        /// or the inbox is closed or full.
+        pub fn try_request_info(&self, remote: EndpointId) -> Option<oneshot::Receiver<RemoteInfo>> {
+            let (tx, rx) = oneshot::channel();
+            self.senders
+                .get(&remote)?
+                .try_send(RemoteStateMessage::RemoteInfo(tx))
+                .ok()?;
+            Some(rx)
+        }
+
+        /// `try_send(ResolveRemote(addrs, tx))` on the sender of `addr.id`.
+        pub fn try_resolve(
+            &self,
+            addr: EndpointAddr,
+        ) -> Option<oneshot::Receiver<Result<(), AddressLookupFailed>>> {
+            let (tx, rx) = oneshot::channel();
+            self.senders
+                .get(&addr.id)?
+                .try_send(RemoteStateMessage::ResolveRemote(addr.addrs, tx))
+                .ok()?;
+            Some(rx)
+        }
+    }
+}
+
 #[cfg(test)]
 mod tests {
     use std::{net::SocketAddr, time::Duration};
